@@ -1,2 +1,7 @@
 import GodiProofs.Graph.KahnMain
 import GodiProofs.Graph.Dfs
+import GodiProofs.Graph.Inv
+import GodiProofs.Graph.Ops
+import GodiProofs.Graph.Detect
+import GodiProofs.Graph.Bridge
+import GodiProofs.Props.C06
